@@ -335,15 +335,45 @@ func (p *Program) racBody(key string, tier int, capN int64, seed int64, lits map
 	for i, prm := range params {
 		w("\tg%d := %s\n", i, prm.Gen)
 	}
+	// zipped parameters share the index of the first of them
+	leader := -1
+	follower := map[int]bool{}
+	if con != nil {
+		for i, prm := range params {
+			pn := prm.Name
+			if i < len(fn.Params) {
+				pn = fn.Params[i].Name()
+			}
+			if containsStr(con.Zip, pn) {
+				if leader < 0 {
+					leader = i
+				} else {
+					follower[i] = true
+				}
+			}
+		}
+	}
 	w("\ttotal := int64(1)\n")
 	for i := range params {
+		if follower[i] {
+			w("\tif len(g%d) != len(g%d) {\n\t\tt.Fatalf(\"zipped universes differ in length\")\n\t}\n", i, leader)
+			continue
+		}
 		w("\ttotal *= int64(len(g%d))\n", i)
 	}
 	w("\tcapN, seed := int64(%d), int64(%d)\n\tn := total\n\tif n > capN {\n\t\tn = capN\n\t}\n", capN, seed)
 	w("\tvar ran, pre, fails int64\n\tshown := 0\n")
 	w("\tfor k := int64(0); k < n; k++ {\n\t\tidx := verifPick(total, capN, seed, k)\n")
 	for i := range params {
+		if follower[i] {
+			continue
+		}
 		w("\t\ti%d := idx %% int64(len(g%d))\n\t\tidx /= int64(len(g%d))\n", i, i, i)
+	}
+	for i := range params {
+		if follower[i] {
+			w("\t\ti%d := i%d\n", i, leader)
+		}
 	}
 	w("\t\tr := verifCase_%d(", idx)
 	for i, prm := range params {
